@@ -7,7 +7,7 @@ from ..engine import Finding
 
 ID = 'C07'
 TITLE = 'cmp is a total preorder over mixed types; sort/dictable.sort follow it stably'
-LEAN_FILES = ['Basic', 'Cmp', 'Sort', 'Native', 'CmpDriver', 'Tri', 'CmpLemmas', 'NativeLemmas', 'C07']
+LEAN_FILES = ['Basic', 'Cmp', 'Sort', 'Native', 'TableBasic', 'SortTable', 'CmpDriver', 'Tri', 'CmpLemmas', 'NativeLemmas', 'C07']
 RULE = ('distinct protocol lines (a cmp pair, a list handed to sort, a key column handed to dictable.sort) on which the '
         'implementation returned a value; pairs of identical atoms and empty lists are not counted')
 TRUSTED = ['correspondence harness (pv.engine, pv.proto) and generators of pv.props.c07',
